@@ -398,8 +398,9 @@ class Package:
         return None
 
     def canonical(self, u: Unit) -> str:
-        """Canonical anchor name of a unit: for a renamed private helper that is located
-        structurally this is the name the rule tables use; otherwise ``u.short``."""
+        """Canonical anchor name of a unit: for a renamed private helper / a method of a renamed
+        private class that is located structurally this is the name the rule tables use;
+        otherwise ``u.short``."""
         cache = self.__dict__.setdefault("_canon", {})
         if not cache:
             for anchor in self.ANCHOR_FALLBACKS:
@@ -407,9 +408,17 @@ class Package:
                 m = self.modules.get(f"{PKG}.{mod}")
                 if m is not None and qual in m.units:
                     continue
-                alt = self._fallback(anchor)
+                alt = self._unit_or_none(anchor)
                 if alt is not None:
                     cache[id(alt.node)] = anchor
+            for anchor in self.CLASS_FALLBACKS:
+                mod, _, cname = anchor.partition(".")
+                m = self.modules.get(f"{PKG}.{mod}")
+                if m is not None and cname in m.classes:
+                    continue
+                info = self._class_fallback(anchor)
+                if info is not None:
+                    cache[("cls", id(info.node))] = anchor
             cache["#"] = True
         top = u
         suffix = ""
@@ -418,7 +427,15 @@ class Package:
             top = top.parent
         if id(top.node) in cache:
             return cache[id(top.node)] + suffix
+        if top.cls is not None and ("cls", id(top.cls.node)) in cache:
+            return cache[("cls", id(top.cls.node))] + "." + top.qualname.rsplit(".", 1)[-1] + suffix
         return u.short
+
+    def canonical_class(self, info: ClassInfo) -> str:
+        """'module.Class' under its anchor name (see canonical)."""
+        self.canonical(next(iter(info.methods.values()))) if info.methods else None
+        cache = self.__dict__.get("_canon", {})
+        return cache.get(("cls", id(info.node)), f"{info.module.short}.{info.name}")
 
     def _is_public(self, u: Unit) -> bool:
         try:
